@@ -22,16 +22,16 @@ from .. import ground as G
 
 I = z3.IntSort()
 _F = {
-    "xor": z3.Function("xor", I, I, I),
-    "bor": z3.Function("bor", I, I, I),
-    "pmul": z3.Function("pmul", I, I, I),
-    "pmod": z3.Function("pmod", I, I, I),
-    "shl": z3.Function("shl", I, I, I),
-    "deg": z3.Function("deg", I, I),
-    "mindeg": z3.Function("mindeg", I, I),
-    "fmul": z3.Function("fmul", I, I, I, I),
-    "fpow": z3.Function("fpow", I, I, I, I),
-    "pyhash": z3.Function("pyhash", I, I),
+    "xor": z3.Function("gf2_xor", I, I, I),
+    "bor": z3.Function("gf2_bor", I, I, I),
+    "pmul": z3.Function("gf2_pmul", I, I, I),
+    "pmod": z3.Function("gf2_pmod", I, I, I),
+    "shl": z3.Function("gf2_shl", I, I, I),
+    "deg": z3.Function("gf2_deg", I, I),
+    "mindeg": z3.Function("gf2_mindeg", I, I),
+    "fmul": z3.Function("gf2_fmul", I, I, I, I),
+    "fpow": z3.Function("gf2_fpow", I, I, I, I),
+    "pyhash": z3.Function("gf2_pyhash", I, I),
 }
 
 
@@ -274,7 +274,7 @@ AXIOMS = [
     ("shl.pos", "shl", "ps", lambda a, s: IMP(AND(a > 0, s >= 0), shl(a, s) > 0)),
     ("shl.zero", "shl", "i", lambda a: shl(a, 0) == a),
     ("shl.deg", "shl", "ps", lambda a, s: IMP(AND(a > 0, s >= 0), deg(shl(a, s)) == deg(a) + s)),
-    ("deg.zero", "deg", "", lambda: deg(0) == -1),
+    ("deg.zero", "deg", "i", lambda a: IMP(a == 0, deg(a) == -1)),
     ("deg.pos", "deg", "i", lambda a: IMP(a > 0, deg(a) >= 0)),
     ("deg.cancel", "deg", "pp", lambda a, b: IMP(AND(a > 0, b > 0, deg(a) == deg(b)), deg(xor(a, b)) < deg(a))),
     ("deg.dominate", "deg", "pp", lambda a, b: IMP(AND(a > 0, b >= 0, deg(b) < deg(a)), deg(xor(a, b)) == deg(a))),
